@@ -13,7 +13,7 @@
    Error enum of the harness: 0 nil | 1 stop block reached | 2 non-sequential | 3 other
    (header / read / decode errors) | 4 file-existence fault | 5 open fault | 6 preprocessor fault |
    7 handler fault. *)
-From BV Require Import Base.Prelude Model.FileSeq Model.Pipeline Check.C10_Check.
+From BV Require Import Base.Prelude Model.FileSeq Model.Pipeline Spec.C10_Spec Spec.C11_Spec Check.C10_Check.
 Local Open Scope N_scope.
 
 Inductive c11_case :=
@@ -22,23 +22,14 @@ Inductive c11_case :=
           (want : N)          (* the enum value with which this fault reports itself *)
           (forced : bool) (calls : list (blk * N)) (err : N) (hung : bool) (bad : bool).
 
-(* the blocks that can be delivered before the fault: the kept blocks of the files before the
-   faulty one, plus the kept blocks of the faulty file read before the failing call *)
-Fixpoint kept_before (L : layout) (i : nat) (k : nat) (f : list blk) : list blk :=
-  match k, f with
-  | S k', b :: f' => (if keep L i b then [b] else []) ++ kept_before L i k' f'
-  | _, _ => []
-  end.
-Definition before_site (L : layout) (i k : nat) : list blk :=
-  flat_map (kept L) (seq 0 i) ++ kept_before L i k (file_of L i).
-
 Fixpoint common_len (a b : list blk) : nat :=
   match a, b with
   | x :: a', y :: b' => if blk_eqb x y then S (common_len a' b') else O
   | _, _ => O
   end.
 
-(* upper bound of the deliveries, and whether the site lies on the path of every run *)
+(* upper bound of the deliveries (Spec/C11_Spec.v [before_site], theorem c11_bound, cut to the
+   reference sequence by c11_prefix), and whether the site lies on the path of every run *)
 Definition site_limit (L : layout) (f : fault) (d : list blk) : list blk * bool :=
   match f with
   | FNone => (d, false)
